@@ -308,6 +308,18 @@ def replay_array(model, dtype="f8", intparams=False, descending=False):
         problems.append(f"R_s decreasing: {rs.tolist()} at {ps}")
     if ps[1] < pb and not bo[0] < bo[1]:
         problems.append(f"B_o not increasing below the bubble point: {bo.tolist()} at {ps}")
+    # every element of the array result is what the scalar call gives at that pressure (arrays straddling the bubble
+    # point and arrays above it: the orderings decided for the scalar form carry over element by element)
+    trials = [ps] + ([[0.6 * pb, 1.3 * pb], [1.1 * pb, 1.7 * pb], [0.3 * pb, 0.8 * pb]] if dtype == "f8" else [[float(round(0.6 * pb)), float(round(1.3 * pb))]])
+    for trial in trials:
+        a2 = np.array(trial, dtype={"f8": "float64", "i8": "int64", "i4": "int32"}[dtype])
+        with np.errstate(all="ignore"):
+            bo2 = np.asarray(oil.b_o_Standing(T_, a2[::-1].copy() if descending else a2, api, gg, rsi), float)
+            bo2 = bo2[::-1] if descending else bo2
+        for j, q in enumerate(trial):
+            bo_s = float(oil.b_o_Standing(T_, float(q), api, gg, rsi))
+            if not (np.isfinite(bo2[j]) and abs(bo2[j] - bo_s) <= 1e-9 * abs(bo_s)):
+                problems.append(f"B_o array element at p={q!r} (array {trial}, p_b={pb!r}) is {bo2[j]!r}, the scalar call gives {bo_s!r}")
     return bool(problems), {"what": f"array entry points on {arr.dtype}{' with Python-int parameters' if intparams else ''}: "
                                     + ("; ".join(problems[:2]) or "orderings hold"), "inputs": m, "pressures": ps}
 
@@ -342,14 +354,15 @@ def job_array(job, variants=(("f8", False), ("i8", False), ("i8", True), ("f8", 
             bo = oil.b_o_Standing(T_, arr, api, gg, rsi)
             if desc and isinstance(rs, SymArray) and isinstance(bo, SymArray) and len(rs.d) == 2 and len(bo.d) == 2:
                 rs, bo = SymArray(list(reversed(rs.d)), rs.dtype_tag), SymArray(list(reversed(bo.d)), bo.dtype_tag)
-            return rs, bo, bool(p1 >= pb), bool(p2 >= pb)
+            bo_s = [oil.b_o_Standing(T_, p1, api, gg, rsi), oil.b_o_Standing(T_, p2, api, gg, rsi)]
+            return rs, bo, bool(p1 >= pb), bool(p2 >= pb), bo_s
         res = paths(job, run, dom, max_paths=32)
         seen = set()
         for k, r in enumerate(res):
             if r.exc is not None:
                 job.prove(f"array[{tagv}]/raises {type(r.exc).__name__}[path{k}]", r.pc, bound="oil box", replay=rp, note=str(r.exc)[:80])
                 continue
-            rs, bo, a1, a2 = r.value
+            rs, bo, a1, a2, bo_s = r.value
             seen.add((a1, a2))
             tag = f"array[{tagv}; p1 {'>=' if a1 else '<'} pb, p2 {'>=' if a2 else '<'} pb]"
             bad = [x for x in list(rs.d) + list(bo.d) if isinstance(x, Uninit)]
@@ -366,6 +379,8 @@ def job_array(job, variants=(("f8", False), ("i8", False), ("i8", True), ("f8", 
             job.prove(f"{tag}/Rs non-decreasing", r.pc + [T.b_lt(P(rs.d[1]), P(rs.d[0]))], bound="oil box", replay=rp)
             if not a2:
                 job.prove(f"{tag}/Bo increasing below pb", r.pc + [T.b_le(P(bo.d[1]), P(bo.d[0]))], bound="oil box", replay=rp)
+            job.prove(f"{tag}/each Bo element is the scalar call's value at that pressure", r.pc + [T.b_or(not_close(bo.d[0], bo_s[0]), not_close(bo.d[1], bo_s[1]))],
+                      bound="oil box", replay=rp)
             job.prove(f"{tag}/reach", r.pc, expect="sat")
         if seen != {(True, True), (False, True), (False, False)}:
             job.errors.append(f"array[{tagv}]: expected the three orderings around the bubble point, got {sorted(seen)}")
